@@ -3,6 +3,8 @@
 A program is a nested tuple AST mirroring coq/NV/Lang/Ast.v:
   expr: ('num', z) ('bool', b) ('str', bytes) ('var', n) ('un', op, e) ('bin', op, a, b) ('call', f, [e..]) ('cond', c, a, b)
         ('arr', [e..]) ('at', a, i) ('len', a)          -- immutable arrays of ints, type 'arr' (array<int>)
+        ('s1', 'len'|'ofint', a) ('s2', 'plus'|'concat'|'equals'|'contains'|'charat', a, b) ('substr', s, start, len)
+                                                        -- string builtins, type 'str' (string)
   stmt: ('skip',) ('seq', s1, s2) ('let', mut, x, ty, e) ('set', x, e) ('if', c, s1, s2) ('while', c, s)
         ('for', x, lo, hi, s) ('break',) ('continue',) ('ret', e|None) ('print', nl, e) ('assert', e) ('expr', e)
   fn:   dict(name=n, params=[(x, ty)], ret=ty, body=stmt, shadow=[stmt...])
@@ -53,6 +55,12 @@ class Cfg:
         self.at_on_call = False              # (at (f ..) i): array operand that is neither a variable nor a literal
         self.for_bound_mutated = False       # a for loop whose body assigns a variable its range bound reads
         self.literal_first_effect = True     # a call as FIRST element of an array literal (the compile-time evaluator evaluates it twice)
+        self.substr_past_end = True          # str_substring with start at / beyond the end of the string or on a string of unknown length
+                                             # (the compile-time evaluator yields void there: C03/C06 streams switch it off)
+        self.str_self_assign = True          # `set s e` where e yields the string variable s itself (s, or a cond with s as a branch):
+                                             # the compile-time evaluator frees the value it then stores (C03/C06 streams switch it off)
+        self.strops = False                  # strings as computed values: + / str_concat / str_length / str_equals / str_contains /
+                                             # char_at / str_substring / int_to_string; lets/params/returns/globals of type string
         self.reuse_names_across_fns = False  # locals / parameters / loop variables of a function re-use names that EARLIER functions bound
                                              # (with another mutability or type where possible); scoping is per function, so this is well-typed
         self.__dict__.update(kw)
@@ -122,6 +130,8 @@ class Gen:
             return ('num', r.randrange(-20, 100))
         if ty == 'arr':
             return ('arr', [('num', r.randrange(-9, 100)) for _ in range(r.randrange(1, 5))])
+        if ty == 'str':
+            return self.str_lit()
         return ('bool', r.random() < 0.5)
 
     def gen_expr(self, ty, depth, sc, pure=False):
@@ -136,6 +146,10 @@ class Gen:
             return self.lit(ty)
         if ty == 'int' and self.c.arrays and r.random() < 0.16:
             return self.gen_array_use(depth, sc, pure)
+        if ty == 'str':
+            return self.gen_str(depth, sc, pure)
+        if self.c.strops and ty in ('int', 'bool') and r.random() < 0.14:
+            return self.gen_str_use(ty, depth, sc, pure)
         k = r.random()
         callable_ = [f for f in sc['fns'] if f['ret'] == ty and (not pure or not f['effect'])]
         if callable_ and k < 0.22 and (self.c.effects_in_operands or not sc.get('in_operand')):
@@ -212,6 +226,143 @@ class Gen:
             self.f('effect_in_operand')
         return ('call', f['name'], args)
 
+    # ---------------------------------------------------------------- strings
+    def str_lit(self):
+        """a string literal: mostly short, now and then empty / one character / 300 characters; escapes only with Cfg.escapes"""
+        r = self.r
+        k = r.random()
+        if k < 0.12:
+            self.f('str_empty'); return ('str', b'')
+        if k < 0.22:
+            self.f('str_one_char'); return ('str', r.choice(b'aZ09 _').to_bytes(1, 'big'))
+        if k < 0.27:
+            self.f('str_300'); return ('str', (b'abcdefghij' * 30))
+        return ('str', self.gen_string())
+
+    def str_value_len(self, e):
+        """length of the value of a literal without escapes, else None"""
+        if e[0] == 'str' and b'\\' not in e[1]:
+            return len(e[1])
+        return None
+
+    def effect_budget(self, args_so_far, sc, pure):
+        """operands of one builtin call: with multi_effect_args off at most one of them has an effect"""
+        return pure or (not self.c.multi_effect_args and any(has_effect(a, sc['fns_by_name']) for a in args_so_far))
+
+    def note_multi(self, args, sc):
+        if sum(1 for a in args if has_effect(a, sc['fns_by_name'])) >= 2:
+            self.f('multi_effect_args')
+
+    def gen_str_small(self, depth, sc, pure):
+        """a string of bounded length (literal, int_to_string, a substring of at most 40 bytes): the right operand of every
+        concatenation, so that strings grow by a bounded amount per evaluation"""
+        r = self.r
+        k = r.random()
+        sub = dict(sc, in_operand=True)
+        if k < 0.5 or depth <= 0:
+            return self.str_lit()
+        if k < 0.75:
+            self.f('int_to_string')
+            return ('s1', 'ofint', self.gen_expr('int', depth - 1, sub, pure))
+        self.f('str_substring')
+        a = self.gen_str(depth - 1, sub, pure)
+        if not self.c.substr_past_end:
+            return self.substr_inside(a)
+        return ('substr', a, ('num', r.randrange(0, 6)), ('num', r.randrange(0, 41)))
+
+    def substr_inside(self, a):
+        """str_substring with 0 <= start < length (only on a literal, whose length is known); otherwise the string itself"""
+        n = self.str_value_len(a)
+        if not n:
+            return a
+        return ('substr', a, ('num', self.r.choice([0, n - 1, n // 2])), ('num', self.r.choice([0, 1, 2, n, n + 1, 300, 4294967295])))
+
+    def gen_str(self, depth, sc, pure=False):
+        r = self.r
+        newest = {}
+        for (x, t, m) in sc['vars']:
+            newest[x] = t
+        vars_ = [x for x, t in newest.items() if t == 'str']
+        if depth <= 0 or r.random() < 0.25:
+            if vars_ and r.random() < 0.6:
+                return ('var', r.choice(vars_))
+            return self.str_lit()
+        k = r.random()
+        sub = dict(sc, in_operand=True)
+        callable_ = [f for f in sc['fns'] if f['ret'] == 'str' and (not pure or not f['effect'])]
+        if callable_ and k < 0.18 and (self.c.effects_in_operands or not sc.get('in_operand')):
+            return self.gen_call(r.choice(callable_), depth, sc, pure)
+        if k < 0.5:
+            op = r.choice(['plus', 'plus', 'concat'])
+            a = self.gen_str(depth - 1, sub, pure)
+            b = self.gen_str_small(depth - 1, sub, self.effect_budget([a], sc, pure))
+            self.note_multi([a, b], sc)
+            self.f('str_' + op)
+            return ('s2', op, a, b)
+        if k < 0.68:
+            # str_substring: start and length anywhere in the common domain (0 .. 2^32-1): inside, at the end, beyond it
+            a = self.gen_str(depth - 1, sub, pure)
+            n = self.str_value_len(a)
+            if not self.c.substr_past_end:
+                self.f('str_substring')
+                return self.substr_inside(a)
+            starts = [0, 0, 1, 2, 5] + ([n - 1, n, n + 1] if n is not None and n >= 1 else []) + [299, 300, 4294967295]
+            lens = [0, 1, 2, 3, 7, 40, 300, 301, 4294967295] + ([n, n + 1] if n is not None else [])
+            st = ('num', r.choice(starts)) if r.random() < 0.8 else ('s1', 'len', self.gen_str(0, sub, True))
+            ln = ('num', r.choice(lens)) if r.random() < 0.8 else self.gen_expr('int', 0, sub, True)
+            if ln[0] != 'num' or not 0 <= ln[1] <= 4294967295:
+                # a computed length must not be negative: x*x mod 7 (0..6) -- both engines agree on % of a non-negative number
+                ln = ('bin', 'mod', ('bin', 'mul', ln, ln), ('num', 7)) if ln[0] == 'var' else ('num', 3)
+            self.f('str_substring')
+            return ('substr', a, st, ln)
+        if k < 0.8:
+            self.f('int_to_string')
+            return ('s1', 'ofint', self.gen_expr('int', depth - 1, sub, pure))
+        if self.c.cond_expr and k < 0.92:
+            self.f('cond_str')
+            return ('cond', self.gen_expr('bool', depth - 1, sc, pure), self.gen_str(depth - 1, sc, pure), self.gen_str(depth - 1, sc, pure))
+        if vars_:
+            return ('var', r.choice(vars_))
+        return self.str_lit()
+
+    def gen_str_use(self, ty, depth, sc, pure=False):
+        """an int or a bool computed from strings"""
+        r = self.r
+        sub = dict(sc, in_operand=True)
+        if ty == 'bool':
+            op = r.choice(['equals', 'contains', 'contains', 'eq', 'ne'])
+            a = self.gen_str(depth - 1, sub, pure)
+            if op in ('eq', 'ne'):
+                # == / != on strings are strcmp calls in native code (operands right to left), EBin in the models: one effect at most
+                b = self.gen_str(depth - 1, sub, pure or has_effect(a, sc['fns_by_name']))
+                self.f('str_eq_operator')
+                return ('bin', op, a, b)
+            if op == 'contains' and r.random() < 0.4:
+                # a needle that IS inside: a substring of the haystack's own value when it is a known literal
+                n = self.str_value_len(a)
+                if n:
+                    i = r.randrange(n); j = r.randrange(i, n + 1)
+                    self.f('str_contains_hit')
+                    return ('s2', 'contains', a, ('str', a[1][i:j]))
+            b = self.gen_str(depth - 1, sub, self.effect_budget([a], sc, pure))
+            self.note_multi([a, b], sc)
+            self.f('str_' + op)
+            return ('s2', op, a, b)
+        if r.random() < 0.45:
+            self.f('str_length')
+            return ('s1', 'len', self.gen_str(depth - 1, sub, pure))
+        # char_at: index inside 0 <= i < length -- a literal with a known length, or a guarded access
+        a = self.gen_str(depth - 1, sub, pure)
+        n = self.str_value_len(a)
+        self.f('char_at')
+        if n:
+            return ('s2', 'charat', a, ('num', r.choice([0, n - 1, n // 2, r.randrange(n)])))
+        if a[0] == 'var':
+            K = r.choice([0, 0, 1, 2, 7])
+            self.f('guarded_char_at')
+            return ('cond', ('bin', 'lt', ('num', K), ('s1', 'len', a)), ('s2', 'charat', a, ('num', K)), self.lit('int'))
+        return ('s1', 'len', a)
+
     # ---------------------------------------------------------------- arrays
     def gen_arr_literal(self, depth, sc, pure=False, n=None):
         r = self.r
@@ -256,12 +407,18 @@ class Gen:
             a = self.gen_arr_literal(depth, sc, pure)
             n = len(a[1])
         self.f('at')
-        if self.c.oob and r.random() < 0.05:
+        if self.c.oob and r.random() < 0.05 and not (pure and not self.c.multi_effect_args):
+            # the trap is an effect: it must not share an argument list with another effect while native code evaluates arguments
+            # right to left (has_effect knows the node through TRAP_NODES; a sibling with an effect asks for pure operands)
             self.f('oob')
+            e = None
             if n is not None:
-                return ('at', a, ('num', r.choice([n, n + 1, -1, -n - 1, 2**32 + (n - 1 if n else 0), INT64_MAX, INT64_MIN + 1, 2**31])))
-            if a[0] == 'var':
-                return ('at', a, r.choice([('len', a), ('num', -1), ('bin', 'add', ('len', a), ('num', 2**32))]))
+                e = ('at', a, ('num', r.choice([n, n + 1, -1, -n - 1, 2**32 + (n - 1 if n else 0), INT64_MAX, INT64_MIN + 1, 2**31])))
+            elif a[0] == 'var':
+                e = ('at', a, r.choice([('len', a), ('num', -1), ('bin', 'add', ('len', a), ('num', 2**32))]))
+            if e is not None:
+                TRAP_NODES[id(e)] = e
+                return e
         if n is not None and n > 0:
             eff_a = has_effect(a, sc['fns_by_name'])
             if r.random() < 0.7:
@@ -310,6 +467,9 @@ class Gen:
             if self.c.arrays and r.random() < 0.3:
                 ty = 'arr'
                 self.f('let_arr')
+            if self.c.strops and r.random() < 0.25:
+                ty = 'str'
+                self.f('let_str')
             e = self.gen_expr(ty, ed, sc)
             if ty == 'arr' and r.random() < 0.08:
                 e = ('arr', [])          # the empty literal: typed by the annotation of the let
@@ -354,7 +514,13 @@ class Gen:
             return ('let', mut, x, ty, e)
         if k < 0.34 and muts:
             x, t = r.choice(muts)
-            return ('set', x, self.gen_expr(t, ed, sc))
+            e = self.gen_expr(t, ed, sc)
+            if t == 'str' and yields_var(e, x):
+                if self.c.str_self_assign:
+                    self.f('str_self_assign')
+                else:
+                    e = ('s2', 'plus', e, ('str', b''))
+            return ('set', x, e)
         if k < 0.52:
             e = self.gen_expr(r.choice(['int', 'int', 'bool']), ed, sc)
             if self.c.arrays and r.random() < 0.15:
@@ -362,6 +528,9 @@ class Gen:
                 self.f('print_arr')
             if self.c.strings and r.random() < 0.2:
                 e = ('str', self.gen_string())
+            if self.c.strops and r.random() < 0.25:
+                e = self.gen_expr('str', ed, sc)
+                self.f('print_str')
             return ('print', r.random() < 0.8, e)
         if k < 0.66 and depth > 0:
             c = self.gen_expr('bool', ed, sc)
@@ -471,6 +640,8 @@ class Gen:
                 ty = r.choice(['int', 'bool'])
                 if self.c.arrays and r.random() < 0.3:
                     ty = 'arr'
+                if self.c.strops and r.random() < 0.3:
+                    ty = 'str'
                 e = self.gen_expr(ty, 1, dict(sc, vars=[(x, t, False) for (x, t) in sc['globals']]), pure=True)
                 prog['globals'].append((g, ty, e))
                 self.__dict__.setdefault('global_names', set()).add(g)
@@ -484,11 +655,15 @@ class Gen:
             params = [(self.fresh_var(None, False), r.choice(['int', 'int', 'bool'])) for _ in range(r.randrange(0, 4))]
             if self.c.arrays:
                 params = [(x, 'arr' if r.random() < 0.25 else t) for (x, t) in params]
+            if self.c.strops:
+                params = [(x, 'str' if r.random() < 0.25 else t) for (x, t) in params]
             if kind < 0.3:
                 # effectful function: prints a tag and its first int argument, returns a value
                 ret = r.choice(['int', 'bool'])
                 if self.c.arrays and r.random() < 0.25:
                     ret = 'arr'
+                if self.c.strops and r.random() < 0.25:
+                    ret = 'str'
                 fsc = dict(sc, vars=[(g, t, False) for (g, t) in sc['globals']] + [(x, t, False) for (x, t) in params])
                 body = self.seq([('print', True, ('num', 1000 + name))] +
                                 [('print', True, ('var', x)) for (x, t) in params[:1]] +
@@ -511,6 +686,8 @@ class Gen:
                 ret = r.choice(['int', 'bool', 'void']) if self.c.void_fns else r.choice(['int', 'bool'])
                 if self.c.arrays and r.random() < 0.25:
                     ret = 'arr'
+                if self.c.strops and r.random() < 0.25:
+                    ret = 'str'
                 fsc = dict(sc, vars=[(g, t, False) for (g, t) in sc['globals']] + [(x, t, False) for (x, t) in params])
                 stmts = self.gen_block(dict(fsc, predeclared=[x for (x, t) in params]), self.c.max_depth - 1, r.randrange(1, self.c.max_stmts), None, ret)
                 # the final return must see only function-level variables: generate it in the function scope
@@ -531,8 +708,24 @@ class Gen:
         return prog
 
 
+def yields_var(e, x):
+    """is the value of e the value object of variable x itself (no new string is built)?"""
+    return e == ('var', x) or (e[0] == 'cond' and (yields_var(e[2], x) or yields_var(e[3], x)))
+
+
+STR_NODES = ('s1', 's2', 'substr')
+STR_BUILTIN = dict(len='str_length', ofint='int_to_string', concat='str_concat', equals='str_equals', contains='str_contains', charat='char_at')
+
+
+def str_operands(e):
+    """operand expressions of a string-builtin node"""
+    return list(e[1:]) if e[0] == 'substr' else list(e[2:])
+
+
 def mentions(e, x):
     t = e[0]
+    if t in STR_NODES:
+        return any(mentions(a, x) for a in str_operands(e))
     if t == 'var':
         return e[1] == x
     if t == 'un':
@@ -555,6 +748,8 @@ def mentions(e, x):
 def calls_any(e):
     """does the expression contain a call (effectful or not)"""
     t = e[0]
+    if t in STR_NODES:
+        return any(calls_any(a) for a in str_operands(e))
     if t == 'call':
         return True
     if t == 'un':
@@ -572,8 +767,15 @@ def calls_any(e):
     return False
 
 
+TRAP_NODES = {}         # id(node) -> node: deliberately out-of-range (at a i) nodes made by Gen.gen_array_use (kept alive here)
+
+
 def has_effect(e, fns):
     t = e[0]
+    if t == 'at' and TRAP_NODES.get(id(e)) is e:
+        return True
+    if t in STR_NODES:
+        return any(has_effect(a, fns) for a in str_operands(e))
     if t in ('num', 'bool', 'str', 'var'):
         return False
     if t == 'un':
@@ -699,6 +901,12 @@ def expr_nano(e, st, top=True):
         return '(at %s %s)' % (expr_nano(e[1], st, False), expr_nano(e[2], st, False))
     if t == 'len':
         return '(array_length %s)' % expr_nano(e[1], st, False)
+    if t == 's2' and e[1] == 'plus':
+        return expr_nano(('bin', 'add', e[2], e[3]), st, top)            # + on strings is spelled like + on ints
+    if t in ('s1', 's2'):
+        return '(%s %s)' % (STR_BUILTIN[e[1]], ' '.join(expr_nano(a, st, False) for a in e[2:]))
+    if t == 'substr':
+        return '(str_substring %s)' % ' '.join(expr_nano(a, st, False) for a in e[1:])
     raise ValueError(e)
 
 
@@ -794,6 +1002,10 @@ def expr_sexp(e):
         return '(at %s %s)' % (expr_sexp(e[1]), expr_sexp(e[2]))
     if t == 'len':
         return '(len %s)' % expr_sexp(e[1])
+    if t in ('s1', 's2'):
+        return '(%s %s %s)' % (t, e[1], ' '.join(expr_sexp(a) for a in e[2:]))
+    if t == 'substr':
+        return '(substr %s)' % ' '.join(expr_sexp(a) for a in e[1:])
     raise ValueError(e)
 
 
@@ -854,6 +1066,8 @@ def size_of(prog):
             return 1 + se(e[1]) + se(e[2])
         if t == 'len':
             return 1 + se(e[1])
+        if t in STR_NODES:
+            return 1 + sum(se(a) for a in str_operands(e))
         return 1
 
     def ss(s):
@@ -883,7 +1097,7 @@ def size_of(prog):
 if __name__ == '__main__':
     import sys
     seed = int(sys.argv[1]) if len(sys.argv) > 1 else 1
-    g = Gen(random.Random(seed), Cfg(arrays='arrays' in sys.argv, oob='oob' in sys.argv))
+    g = Gen(random.Random(seed), Cfg(arrays='arrays' in sys.argv, oob='oob' in sys.argv, strops='strops' in sys.argv))
     p = g.gen_program()
     print(to_nano(p, sys.argv[2] if len(sys.argv) > 2 else 'prefix', random.Random(seed)))
     print('#', to_sexp(p))
